@@ -19,6 +19,7 @@ for the logarithmic form `C17_through` only, `hinv : ∀ x, lg (exp10 x) = x`.
 `Real.logb 10` and `(10 : ℝ) ^ ·` satisfy all four (shown at the end of this file).
 -/
 namespace SF
+open Plt
 variable {K : Type} [Field K] [LinearOrder K] [IsStrictOrderedRing K]
 
 /-- **C17 (count).** For every display mode and every number of selected fits, the number of curves is
@@ -240,10 +241,10 @@ example : (∀ a b : ℝ, (10 : ℝ) ^ (a + b) = (10 : ℝ) ^ a * (10 : ℝ) ^ b
    fun x => Real.logb_rpow (by norm_num) (by norm_num)⟩
 
 /-- a concrete two-filter, three-aperture package with two selected fits -/
-def exCtx : PlotCtx Rat :=
+def exPlotCtx : PlotCtx Rat :=
   { c := 1, dOld := 3, kpc := 3, aps := [100, 1000, 10000], fwav := [1, 2], theta := [1, 2] }
 
-def exFits : List (PlotFit Rat) :=
+def exPlotFits : List (PlotFit Rat) :=
   [{ sc := 1, av := 0, rows := [{ wav := 1, nu := 3, k := 0, flux := [1, 2, 3] },
                                 { wav := 2, nu := 2, k := 0, flux := [2, 3, 4] }] },
    { sc := 2, av := 1, rows := [{ wav := 1, nu := 3, k := 0, flux := [2, 3, 5] },
@@ -251,15 +252,15 @@ def exFits : List (PlotFit Rat) :=
 
 /-- `curves` returns on it in every mode, with 2 × (1 | 1 | 2 | 2) curves -/
 example : [SedType.interp, .largest, .largestSmallest, .all].map (fun mode =>
-      match curves (fun x => x) (fun x => x) exCtx mode exFits with
+      match curves (fun x => x) (fun x => x) exPlotCtx mode exPlotFits with
       | .ok ls => ls.length
       | .error _ => 0) = [2, 2, 4, 4] := by decide +kernel
 
 /-- the side conditions of the pass-through theorems (shape, more than one aperture, positive table,
     distinct positive filter wavelengths, positive interpolated fluxes) hold on it -/
-example : exCtx.kpc ≠ 0 ∧ 1 < exCtx.aps.length ∧ 0 < listMin exCtx.aps ∧
-    exCtx.fwav.Pairwise (· ≠ ·) ∧ (∀ w ∈ exCtx.fwav, 0 < w) ∧
-    (∀ f ∈ exFits, ∀ t ∈ exCtx.theta, ∀ r ∈ f.rows, 0 < fitApFlux exCtx.aps r.flux (t * (f.sc * thousand))) := by
+example : exPlotCtx.kpc ≠ 0 ∧ 1 < exPlotCtx.aps.length ∧ 0 < listMin exPlotCtx.aps ∧
+    exPlotCtx.fwav.Pairwise (· ≠ ·) ∧ (∀ w ∈ exPlotCtx.fwav, 0 < w) ∧
+    (∀ f ∈ exPlotFits, ∀ t ∈ exPlotCtx.theta, ∀ r ∈ f.rows, 0 < fitApFlux exPlotCtx.aps r.flux (t * (f.sc * thousand))) := by
   decide +kernel
 
 end SF
